@@ -6,6 +6,7 @@ package main
 // address of one of its (nested) struct fields.
 
 import (
+	"go/token"
 	"go/types"
 	"strings"
 
@@ -105,7 +106,18 @@ func (e *e7) written(fn *ssa.Function, arg int, depth int) map[string]bool {
 			case *ssa.Call:
 				cc := ins.Common()
 				callee := cc.StaticCallee()
-				if callee == nil || !inModule(callee) || callee.Blocks == nil {
+				if callee == nil {
+					continue
+				}
+				// x.f.Reset() on a pointer field: the pointee is cleared, which clears what f carries
+				if (callee.Name() == "Reset" || callee.Name() == "reset") && len(cc.Args) >= 1 {
+					if u, ok := cc.Args[0].(*ssa.UnOp); ok && u.Op == token.MUL {
+						if pth, ok := pathFromParam(u.X, root); ok && pth != "" {
+							res[pth] = true
+						}
+					}
+				}
+				if !inModule(callee) || callee.Blocks == nil {
 					continue
 				}
 				for ai, a := range cc.Args {
@@ -168,11 +180,20 @@ func (e *e7) written(fn *ssa.Function, arg int, depth int) map[string]bool {
 				if out[pr.Index] == nil {
 					continue // top
 				}
+				o := out[pr.Index]
+				// "if x.f == nil" taken towards b: f is known to be zero on this edge
+				if pth, nilSucc := nilTestedField(pr, root); pth != "" && nilSucc == b {
+					o2 := map[string]bool{pth: true}
+					for k := range o {
+						o2[k] = true
+					}
+					o = o2
+				}
 				if first {
-					s = out[pr.Index]
+					s = o
 					first = false
 				} else {
-					s = intersect(s, out[pr.Index])
+					s = intersect(s, o)
 				}
 			}
 			if first {
@@ -205,6 +226,40 @@ func (e *e7) written(fn *ssa.Function, arg int, depth int) map[string]bool {
 	}
 	e.memo[k] = res
 	return res
+}
+
+// nilTestedField: block b ends in "if root.P == nil" / "!= nil" (P a field
+// path of root); returns P and the successor taken when the field is nil.
+func nilTestedField(b *ssa.BasicBlock, root ssa.Value) (string, *ssa.BasicBlock) {
+	ifi, ok := b.Instrs[len(b.Instrs)-1].(*ssa.If)
+	if !ok {
+		return "", nil
+	}
+	pos, v := stripNot(ifi.Cond)
+	bo, ok := v.(*ssa.BinOp)
+	if !ok || (bo.Op != token.EQL && bo.Op != token.NEQ) {
+		return "", nil
+	}
+	o := bo.X
+	if isNilConst(bo.X) {
+		o = bo.Y
+	} else if !isNilConst(bo.Y) {
+		return "", nil
+	}
+	u, ok := o.(*ssa.UnOp)
+	if !ok || u.Op != token.MUL {
+		return "", nil
+	}
+	pth, ok := pathFromParam(u.X, root)
+	if !ok || pth == "" {
+		return "", nil
+	}
+	// the load must not be separated from the test by a store to the same field (same block, after the load)
+	nilOnTrue := (bo.Op == token.EQL) == pos
+	if nilOnTrue {
+		return pth, b.Succs[0]
+	}
+	return pth, b.Succs[1]
 }
 
 // coveredBy: path fp is written when it, or any prefix of it, is in w; or when
